@@ -3,6 +3,7 @@ CONSTANTS
   Objects = {"o1","o2"}
   Contents = {"shallow","nested","deeper","badscan","badrule","badvalue","usesT","typeT","orset","rich","typeU","blank","comment"}
   Ops = {"Check","Example","GetAST","Len","Used","OpenAPI"}
+  Registers = TRUE
   MaxCalls = 5
 INVARIANTS TypeOK Emit
 PROPERTIES FrozenRegsStable
